@@ -41,10 +41,15 @@ ClaimsOk(e) == /\ SeqToSet(e.ids) = ClaimsAbout(Upto(e.n), e.pn, e.attr, e.signe
                /\ Len(e.ids) = Cardinality(SeqToSet(e.ids))
                /\ e.signer # 0 => e.dated          \* one signer's rows come back in date order
 
+WithAttrOk(e, D) == /\ Len(e.pns) = Cardinality(SeqToSet(e.pns))
+                    /\ WithAttrOkD(SeqToSet(e.pns), Upto(e.n), e.attr, e.v, T3(e.t), e.signer, D)
+
 Expected(e) == CASE e.ev = "q" -> AttrValues(Upto(e.n), e.pn, e.attr, T3(e.t), e.signer)
                  [] e.ev = "deleted" -> DeletedSet(Upto(e.n))
                  [] e.ev = "mod" -> ModTime(Upto(e.n), e.pn)
                  [] e.ev = "claims" -> ClaimsAbout(Upto(e.n), e.pn, e.attr, e.signer)
+                 [] e.ev = "withattr" -> <<WithAttrMustD(Upto(e.n), e.attr, e.v, T3(e.t), e.signer, {}),
+                                           WithAttrMayD(Upto(e.n), e.attr, e.v, T3(e.t), e.signer, {})>>
 
 (* class of a rejected reply: which listed deviation (if any) explains it, or what kind of difference it is *)
 Class(e) ==
@@ -53,6 +58,9 @@ Class(e) ==
      [] e.ev = "mod" -> IF ModOk(e, {"ModTimeCountsPermanodeDelete"}) THEN "permanode-delete-date-counted"
                         ELSE IF ModOk(e, {"IgnoreClaimDeletion"}) THEN "deleted-claim-date-counted" ELSE "other-time"
      [] e.ev = "deleted" -> IF DeletedSet(Upto(e.n)) \ SeqToSet(e.ids) # {} THEN "deleted-reported-live" ELSE "live-reported-deleted"
+     [] e.ev = "withattr" -> IF WithAttrOk(e, {"ValueLookupIgnoresLaterClaims"}) THEN "stale-value-matched"
+                             ELSE IF WithAttrMustD(Upto(e.n), e.attr, e.v, T3(e.t), e.signer, {}) \ SeqToSet(e.pns) # {} THEN "live-value-missed"
+                             ELSE "other-permanodes"
      [] e.ev = "claims" -> LET exp == ClaimsAbout(Upto(e.n), e.pn, e.attr, e.signer) IN
                            IF SeqToSet(e.ids) \ exp # {} THEN
                               (IF \E x \in SeqToSet(e.ids) \ exp : Deleted(Upto(e.n), x) THEN "deleted-claim-listed" ELSE "foreign-claim-listed")
@@ -70,6 +78,7 @@ TLine == /\ l <= Len(Trace) /\ Ev.ev # "world"
                         [] Ev.ev = "deleted" -> DeletedOk(Ev)
                         [] Ev.ev = "mod" -> ModOk(Ev, {})
                         [] Ev.ev = "claims" -> ClaimsOk(Ev)
+                        [] Ev.ev = "withattr" -> WithAttrOk(Ev, {})
             IN ok \/ PrintT(<<"VIOL", l, Ev.ev, Ev.path, Class(Ev), Expected(Ev)>>)
 
 TNext == TWorld \/ TLine
